@@ -194,6 +194,32 @@ def run(ctx):
             if after != before or again != res[1]:
                 ctx.violation("collation changes the examples it was given, or collating the same examples again gives another batch", info,
                               {"examples_changed": after != before, "second_result_differs": again != res[1]}, True, size=len(batch), signature={"clause": "inputs"})
+            else:
+                # the same example OBJECTS with new contents (a dataset that re-crops its clips: `.tensor` / `.mask` replaced by longer ones): collated like fresh objects
+                import torch
+                from pose_format.torch.masked import MaskedTensor
+                def grow(o, k):
+                    if isinstance(o, MaskedTensor):
+                        extra_t = torch.full((k,) + tuple(o.tensor.shape[1:]), 3.0, dtype=o.tensor.dtype)
+                        o.tensor = torch.cat([o.tensor, extra_t], dim=0); o.mask = torch.cat([o.mask, torch.ones_like(extra_t, dtype=torch.bool)], dim=0)
+                    elif isinstance(o, dict):
+                        for v in o.values(): grow(v, k)
+                    elif isinstance(o, tuple):
+                        for v in o: grow(v, k)
+                def fresh(o):
+                    if isinstance(o, MaskedTensor): return MaskedTensor(o.tensor.clone(), o.mask.clone())
+                    if isinstance(o, dict): return {k: fresh(v) for k, v in o.items()}
+                    if isinstance(o, tuple): return tuple(fresh(v) for v in o)
+                    return o
+                try:
+                    for i, o in enumerate(objs):
+                        grow(o, 1 + (i % 2))
+                    grown, want = canon(zero_pad_collator(objs)), canon(zero_pad_collator([fresh(o) for o in objs]))
+                    ok2 = grown == want
+                except Exception as e:
+                    ok2 = False
+                if not ok2:
+                    ctx.violation("examples whose tensors were replaced by longer ones are not collated like fresh examples with the same contents", info, {}, True, size=len(batch), signature={"clause": "regrown"})
             oracle(ctx, info, batch, res[1])
         else:
             ctx.violation("collating a valid batch raises", info, {"error": res[1]}, True, size=len(batch), signature={"clause": "raises", "lengths": sorted(set(lens))})
